@@ -431,7 +431,13 @@ def judge_algebra(case) -> Outcome:
         out.fail("c01.internal_exception", f"{case['s']!r}: {type(e).__name__}: {str(e)[:160]}")
         return out
     if expect_reject:
-        out.fail("c01.accepted_outside_grammar", f"{case['s']!r} should be rejected ({expect_reject}) but gave {got_sorted}")
+        import re
+
+        if "exponent" in str(expect_reject) and re.search(r"(\*\*|\^)\s*\(\s*(\d+)(\s*\+\s*\2)+\s*\)", case["s"]):
+            # finding K10: '(1+1)' is the one-element term set {1} by the time the power operator sees it
+            out.fail("c01.exponent_sum_of_equal_literals", f"{case['s']!r}: an exponent written as a sum of equal literals is read as that literal; got {got_sorted}")
+        else:
+            out.fail("c01.accepted_outside_grammar", f"{case['s']!r} should be rejected ({expect_reject}) but gave {got_sorted}")
         return out
     exp_n = norm_sorted(exp)
     if got_sorted != exp_n:
@@ -512,7 +518,7 @@ class Gen:
             base = ["paren", self.sumchain(d - 1, small=True)] if self.rng.random() < 0.8 else ["name", self.rng.choice(self.names)]
             r2 = self.rng.random()
             if r2 < 0.06 and self.bad_exponents:  # exponents outside the grammar: must be rejected, never silently reinterpreted
-                return ["pow", self.rng.choice(["**", "^"]), base, self.rng.choice(["(1+2)", "(2+1)", "b", "2.0", "(0)", "00", "1.5", "(a)", "(2:1)"])]
+                return ["pow", self.rng.choice(["**", "^"]), base, self.rng.choice(["(1+2)", "(2+1)", "b", "2.0", "(0)", "00", "1.5", "(a)", "(2:1)", "(1+1)", "(1 + 1)", "(2+2)"])]
             return ["pow", self.rng.choice(["**", "^"]), base, self.rng.choice([1, 2, 2, 3, 3, 10 ** 12, 99999999999999999999]), "paren" if r2 < 0.2 else "plain"]
         op = self.rng.choice([":", ":", "*", "/", "%in%"])
         left = self.prod(d - 1)
